@@ -413,6 +413,17 @@ fn partial_sums<F: Field>(
     helper_columns
 }
 
+/// Crate-visible alias of `partial_sums` for `verif_hooks`.
+#[cfg(feature = "verif_hooks")]
+pub(crate) fn partial_sums_hook<F: Field>(
+    trace: &[PolynomialValues<F>],
+    columns_filters: &[ColumnFilter<F>],
+    challenge: GrandProductChallenge<F>,
+    constraint_degree: usize,
+) -> Vec<PolynomialValues<F>> {
+    partial_sums(trace, columns_filters, challenge, constraint_degree)
+}
+
 /// Data necessary to check the cross-table lookups of a given table.
 #[derive(Clone, Debug)]
 pub struct CtlCheckVars<'a, F, FE, P, const D2: usize>
